@@ -10,7 +10,7 @@ SPEC = dict(
          "26 indices x 4 modes x 2 queues x 2 pipelining modes first; non-trivial = the fault point was reached; distinct by the whole case",
     trusted=["fakeredis fault injection (CloseBefore / CloseAfter / CloseMidReply) and the recording dialler",
              "the wall-clock bound (3 s per phase) stands in for 'returns'; a hang is reported, a slow return is not"],
-    assumptions=["see C01 (ServerProto, abstract FIFO, flow-buffer PutOne step, Go runtime modelled)",
+    assumptions=["see C01 (ServerProto, abstract FIFO, Go runtime modelled)",
                  "termination under the real scheduler is not a model notion: C04_not_stuck shows that a progress step is enabled, "
                  "C04_drain what holds once the loop has terminated"],
 )
